@@ -11,10 +11,12 @@
 (*   nl, nb     lend / borrow id counters                                                                *)
 (*   price      <<[a, p, act]>>           TWA per underlying asset (raw), active flag                    *)
 (*   lends      <<[id, o, pool, asset, ain, av, rew]>>      owner, AmountIn, AvailableToBorrow, rewards  *)
-(*   borrows    <<[id, lend, pair, cin, ca, out, oa, iT, liq, ho, st, bra, bram]>>                       *)
+(*   borrows    <<[id, lend, pair, cin, ca, out, oa, iT, liq, ho, uv, st, bra, bram]>>                   *)
 (*              collateral cTokens (amount, underlying asset), principal (amount, asset), whole coins of *)
 (*              accrued interest, IsLiquidated flag, ho = handed over to a liquidation auction (the       *)
-(*              liquidation module holds a locked vault for it), IsStableBorrow, bridged asset / amount  *)
+(*              V2 liquidation module holds a locked vault for it), uv = under first-generation         *)
+(*              liquidation (x/liquidation holds a locked vault of kind borrow: part of the collateral   *)
+(*              was sold off, the rest stays pledged), IsStableBorrow, bridged asset / amount            *)
 (*   stats      <<[pool, asset, tl, tb, tsb, tia, lids, bids]>>   published PoolAssetLBMapping           *)
 (*   pb         <<[pool, asset, amt, c]>>  pool module account: underlying coins and cTokens held        *)
 (*   ub         <<[u, asset, amt, c]>>     user balances: underlying coins and cTokens                   *)
@@ -94,7 +96,7 @@ Pledged(s, lid) == SumOver(s.borrows, LAMBDA b : IF b.lend = lid /\ ~b.ho THEN b
 LentByPositions(s, p, a) == SumOver(s.lends, LAMBDA l : IF l.pool = p /\ l.asset = a THEN l.av + Pledged(s, l.id) ELSE 0)
 (* principal of the open borrows of (out pool, out asset) that are not under liquidation; variable / stable *)
 BorrowedByPositions(cfg, s, p, a, stable) ==
-  SumOver(s.borrows, LAMBDA b : IF ~b.ho /\ b.st = stable /\ HasPair(cfg, b.pair) /\ PairC(cfg, b.pair).opool = p /\ PairC(cfg, b.pair).aout = a
+  SumOver(s.borrows, LAMBDA b : IF ~b.ho /\ ~b.uv /\ b.st = stable /\ HasPair(cfg, b.pair) /\ PairC(cfg, b.pair).opool = p /\ PairC(cfg, b.pair).aout = a
                                  THEN b.out ELSE 0)
 
 BooksLend(s)        == \A x \in Range(s.stats) : x.tl = LentByPositions(s, x.pool, x.asset)
@@ -297,7 +299,7 @@ UserBorrowOnPair(s, u, pid) == {b \in Range(s.borrows) : b.pair = pid /\ HasId(s
 NewBorrow(cfg, s, u, l, pr, cin, loan, stable, bra, bram) ==
   LET id == s.nb + 1
       b == [id |-> id, lend |-> l.id, pair |-> pr.id, cin |-> cin, ca |-> pr.ain, out |-> loan, oa |-> pr.aout, iT |-> 0,
-            liq |-> FALSE, ho |-> FALSE, st |-> stable, bra |-> bra, bram |-> bram]
+            liq |-> FALSE, ho |-> FALSE, uv |-> FALSE, st |-> stable, bra |-> bra, bram |-> bram]
       s1 == UserAmt(PoolAmt(PoolCt(UserCt(s, u, pr.ain, -cin), l.pool, pr.ain, cin), pr.opool, pr.aout, -loan), u, pr.aout, loan)
       s2 == AddBid(AddTB(s1, pr.opool, pr.aout, stable, loan), pr.opool, pr.aout, id)
   IN [PutLend(s2, [l EXCEPT !.av = @ - cin]) EXCEPT !.nb = id, !.borrows = Append(@, b)]
